@@ -7,6 +7,18 @@ number of steps; every thread is a most general client (may call any procedure w
 under the caller contract "DecRef only what you own").  All theorems are by induction over schedules
 (`Reach`), through the invariant `Inv` (Lemmas/C14Inv.lean).
 
+WHICH SYSTEM A THEOREM IS ABOUT.  `Reach legacy s`:
+* `legacy = true`  – THE CODE AS WRITTEN (HEAD of /repo): callers of `selectSegments(…, false)` /
+  `segments(ctx,false)` may `DecRef` a segment they did not pin (`Proc.decRefStray`; known finding
+  F14a).  Theorems stated for an arbitrary `{legacy : Bool}` hold for the code as written.
+* `legacy = false` (`Reachable`) – THE PROPOSED REPAIR of F14a (fixes/C14_F14a_unpinned_decref.diff):
+  every caller DecRefs only what it owns; equivalently every run of the code as written in which no
+  stray DecRef occurs.  Theorems stated for `Reachable` need this; they are exactly what F14a
+  breaks (`refcount_eq_holders`, `no_use_after_close`, `decRef_always_releases`, the owner parts of
+  `no_resurrection`, `no_leak`), and section 7 gives the `decide`d counterexample schedule.
+`segmentsLoop` (unwinding) is `segments(ctx,true)` as written since fix c1c1a97 (finding F14b);
+`segmentsLoop_legacy` is the loop before that fix.
+
 What the model covers, what it does not, and how it is tied to the Go code: checks/C14.design.md.
 -/
 import Banyan.Lemmas.C14Inv
@@ -20,14 +32,15 @@ namespace Banyan.C14
 def holders (s : State) : Int := lsum holdsI s.ts
 
 /-- finite continuation of a run under the caller contract -/
-inductive Path : State → State → Prop
-  | refl (s : State) : Path s s
-  | step {s s' s'' : State} (l : Label) : Path s s' → l.fair = true → s'.step l = some s'' → Path s s''
+inductive Path (legacy : Bool) : State → State → Prop
+  | refl (s : State) : Path legacy s s
+  | step {s s' s'' : State} (l : Label) : Path legacy s s' → (legacy = true ∨ l.fair = true) →
+      s'.step l = some s'' → Path legacy s s''
 
-theorem Reach.path {s s' : State} (h : Reachable s) (p : Path s s') : Reachable s' := by
+theorem Reach.path {legacy : Bool} {s s' : State} (h : Reach legacy s) (p : Path legacy s s') : Reach legacy s' := by
   induction p with
   | refl => exact h
-  | step l _ hf hs ih => exact Reach.step l ih (Or.inr hf) hs
+  | step l _ hf hs ih => exact Reach.step l ih hf hs
 
 /-- a concrete schedule from the initial state gives a reachable state -/
 theorem reach_of_run (legacy : Bool) : ∀ (ls : List Label) (s s' : State), Reach legacy s →
@@ -55,7 +68,8 @@ theorem reach_endOf (legacy : Bool) (ls : List Label) (hf : ∀ l ∈ ls, legacy
 
 /-- **The invariant holds in every reachable state** (any number of threads, any interleaving of
 the atomic steps).  `Inv` says:
-* `rcSum`      – `refCount` = number of references owned by the threads (hence `≥ 0`);
+* `rcLe/rcNonneg` – `0 ≤ refCount ≤` number of references owned by the threads;
+* `rcSum/noStray` – (repair only) `refCount` = that number exactly; nobody is in a stray DecRef;
 * `openOfRc`   – before shutdown, `refCount > 0 →` index and shards are open;
 * `dirOfOpen`  – open `→` the directory exists;  `mbdOfNoDir` – no directory `→ mustBeDeleted`;
 * `lockIff/lockLt` – the mutex is held exactly by the one thread inside a critical section;
@@ -64,26 +78,24 @@ the atomic steps).  `Inv` says:
                  mutex, and it still is 0");
 * `pending`    – a flagged, unreferenced segment whose directory still exists has a thread that is
                  committed to removing it. -/
-theorem inv_reachable {s : State} (h : Reachable s) : Inv s := inv_of_reach h
+theorem inv_reachable {legacy : Bool} {s : State} (h : Reach legacy s) : Inv legacy s := inv_of_reach h
+
+/-- code as written: `0 ≤ refCount ≤` owned references (a stray DecRef can only lower it). -/
+theorem refcount_bounds {legacy : Bool} {s : State} (h : Reach legacy s) : 0 ≤ s.sh.rc ∧ s.sh.rc ≤ holders s :=
+  ⟨(inv_reachable h).rcNonneg, (inv_reachable h).rcLe⟩
 
 /-- `refCount` equals the number of owned references, and is never negative. -/
 theorem refcount_eq_holders {s : State} (h : Reachable s) : s.sh.rc = holders s ∧ 0 ≤ s.sh.rc := by
   have I := inv_reachable h
-  refine ⟨I.rcSum, ?_⟩
-  rw [I.rcSum]
-  cases hts : s.ts with
-  | nil => simp [lsum]
-  | cons x r =>
-    have := (lsum_ge holdsI holdsI_nonneg s.ts 0 x (by simp [hts])).2
-    rw [hts] at this; exact this
+  exact ⟨I.rcSum rfl, I.rcNonneg⟩
 
 /-- Shape of the shared state: referenced ⇒ open ∧ directory; directory gone ⇒ flagged, closed,
 unreferenced (before shutdown). -/
-theorem shape_reachable {s : State} (h : Reachable s) :
+theorem shape_reachable {legacy : Bool} {s : State} (h : Reach legacy s) :
     (s.sh.down = false → s.sh.rc > 0 → s.sh.isOpen = true ∧ s.sh.dir = true) ∧
     (s.sh.dir = false → s.sh.mbd = true ∧ s.sh.isOpen = false ∧ (s.sh.down = false → s.sh.rc = 0)) := by
   have I := inv_reachable h
-  have hrc := (refcount_eq_holders h).2
+  have hrc := I.rcNonneg
   refine ⟨fun hd hr => ⟨I.openOfRc hd hr, I.dirOfOpen (I.openOfRc hd hr)⟩, fun hnd => ⟨I.mbdOfNoDir hnd, ?_, ?_⟩⟩
   · cases ho : s.sh.isOpen with
     | false => rfl
@@ -94,7 +106,7 @@ theorem shape_reachable {s : State} (h : Reachable s) :
     · omega
 
 /-- mutual exclusion of the critical sections of `segment.mu` -/
-theorem mutex {s : State} (h : Reachable s) {t u : Nat} {th thu : Th} (ht : s.ts[t]? = some th)
+theorem mutex {legacy : Bool} {s : State} (h : Reach legacy s) {t u : Nat} {th thu : Th} (ht : s.ts[t]? = some th)
     (hu : s.ts[u]? = some thu) (lt : locked th.pc = true) (lu : locked thu.pc = true) : t = u := by
   have I := inv_reachable h
   have a := (I.lockIff t th ht).mp lt
@@ -104,13 +116,13 @@ theorem mutex {s : State} (h : Reachable s) {t u : Nat} {th thu : Th} (ht : s.ts
 /-- **Closing / deleting steps are guarded**: a step that closes the resources or removes the
 directory is taken by the thread that holds the mutex, and – unless it is the database shutdown –
 at `refCount = 0`. -/
-theorem close_steps_guarded {s : State} (h : Reachable s) {t : Nat} {th th' : Th} {p : Proc} {ok : Bool}
+theorem close_steps_guarded {legacy : Bool} {s : State} (h : Reach legacy s) {t : Nat} {th th' : Th} {p : Proc} {ok : Bool}
     {sh' : Shared} (hg : s.ts[t]? = some th) (hs : tstep t s.sh th p ok = some (sh', th'))
     (hc : (s.sh.isOpen = true ∧ sh'.isOpen = false) ∨ (s.sh.dir = true ∧ sh'.dir = false)) :
     s.sh.mu = some t ∧ (s.sh.rc = 0 ∨ th.pc = .clClose ∨ (th.pc = .clRm ∧ s.sh.mbd = true)) := by
   have P := (inv_reachable h).pre hg
   obtain ⟨pc, holds, base, res, flag⟩ := th
-  obtain ⟨rcGe, lock, _, _, _, _, _, tl⟩ := P
+  obtain ⟨_, lock, _, _, _, _, _, tl⟩ := P
   cases pc <;> simp only [tstep] at hs
   case idle =>
     cases p <;> simp only [] at hs <;> (try split at hs) <;> simp at hs <;> (try obtain ⟨rfl, rfl⟩ := hs) <;>
@@ -131,7 +143,7 @@ theorem no_use_after_close {s : State} (h : Reachable s) (hd : s.sh.down = false
     (hg : s.ts[t]? = some th) (hh : th.holds > 0) : s.sh.isOpen = true ∧ s.sh.dir = true := by
   have I := inv_reachable h
   have h1 := (lsum_ge holdsI holdsI_nonneg s.ts t th hg).1
-  have : s.sh.rc > 0 := by rw [I.rcSum]; simp only [holdsI] at h1; omega
+  have : s.sh.rc > 0 := by rw [I.rcSum rfl]; simp only [holdsI] at h1; omega
   exact (shape_reachable h).1 hd this
 
 /-- the same for the places where the code dereferences resources without owning a counted
@@ -147,6 +159,17 @@ theorem resource_access_safe {s : State} (h : Reachable s) {t : Nat} {th : Th} (
   · intro hpc hd
     refine no_use_after_close h hd hg ?_
     simp [TL, TLpc, hpc] at T; omega
+  · intro hpc; simp [TL, TLpc, hpc] at T; exact ⟨T.1.2, T.1.1⟩
+  · intro hpc; simp [TL, TLpc, hpc] at T; exact T.1
+
+/-- code as written: the accesses made under the mutex / read lock are safe even with stray DecRefs
+around – `snapshotClosed` sees a closed segment with its directory, an `RLock` reader that saw the
+index open keeps it open until it unlocks. -/
+theorem locked_access_safe {legacy : Bool} {s : State} (h : Reach legacy s) {t : Nat} {th : Th}
+    (hg : s.ts[t]? = some th) :
+    (th.pc = .snLink → s.sh.isOpen = false ∧ s.sh.dir = true) ∧ (th.pc = .rdUse → s.sh.isOpen = true) := by
+  have T := (inv_reachable h).tl t th hg
+  refine ⟨?_, ?_⟩
   · intro hpc; simp [TL, TLpc, hpc] at T; exact ⟨T.1.2, T.1.1⟩
   · intro hpc; simp [TL, TLpc, hpc] at T; exact T.1
 
@@ -183,7 +206,7 @@ flagged segment stays; once the segment is flagged, unreferenced and still on di
 *committed* to `performDelete` (it is between the store of the flag / the CAS to zero and the
 `MustRMAll`), so the delete obligation is never lost.  The directory disappears exactly once
 (`dir_never_returns`).  The progress half at op granularity is `last_release_deletes`. -/
-theorem delete_at_last_release {s : State} (h : Reachable s) :
+theorem delete_at_last_release {legacy : Bool} {s : State} (h : Reach legacy s) :
     (s.sh.down = false → s.sh.rc > 0 → s.sh.dir = true) ∧
     (s.sh.mbd = true → s.sh.dir = true → s.sh.rc = 0 →
       ∃ (t : Nat) (th : Th), s.ts[t]? = some th ∧ pend th.pc = true) :=
@@ -198,9 +221,9 @@ holder out of its critical section).  Proved instead: the safety half `delete_at
 `last_release_deletes`. -/
 def deleteEventuallyStatement : Prop :=
   ∀ s : State, Reachable s → s.sh.mbd = true → s.sh.dir = true → s.sh.rc = 0 →
-    ∃ s', Path s s' ∧ (s'.sh.dir = false ∨ s'.sh.rc > 0)
+    ∃ s', Path false s s' ∧ (s'.sh.dir = false ∨ s'.sh.rc > 0)
 
-theorem delete_at_last_release_partial {s : State} (h : Reachable s) :
+theorem delete_at_last_release_partial {legacy : Bool} {s : State} (h : Reach legacy s) :
     (s.sh.down = false → s.sh.rc > 0 → s.sh.dir = true) ∧
     (s.sh.mbd = true → s.sh.dir = true → s.sh.rc = 0 →
       ∃ (t : Nat) (th : Th), s.ts[t]? = some th ∧ pend th.pc = true) := delete_at_last_release h
@@ -231,7 +254,17 @@ theorem last_release_deletes (t : Tid) (ok isOpen dir down : Bool) (la : Int) (h
 /-- **`no_resurrection`**: once the directory is gone it never comes back, the segment is never
 open again, nobody ever owns a reference to it again, and no `incRef` returns success
 (all before database shutdown; `down` itself is only set by `close`). -/
-theorem no_resurrection {s s' : State} (h : Reachable s) (hd : s.sh.dir = false) (p : Path s s') :
+theorem no_resurrection_as_written {legacy : Bool} {s s' : State} (h : Reach legacy s) (hd : s.sh.dir = false)
+    (p : Path legacy s s') :
+    s'.sh.dir = false ∧ s'.sh.isOpen = false ∧ s'.sh.mbd = true ∧ (s'.sh.down = false → s'.sh.rc = 0) := by
+  have hd' : s'.sh.dir = false := by
+    induction p with
+    | refl => exact hd
+    | step l _ _ hs ih => exact dir_never_returns hs ih
+  have S := (shape_reachable (h.path p)).2 hd'
+  exact ⟨hd', S.2.1, S.1, S.2.2⟩
+
+theorem no_resurrection {s s' : State} (h : Reachable s) (hd : s.sh.dir = false) (p : Path false s s') :
     s'.sh.dir = false ∧ s'.sh.isOpen = false ∧ s'.sh.mbd = true ∧
     (s'.sh.down = false → s'.sh.rc = 0 ∧
       ∀ (t : Nat) (th : Th), s'.ts[t]? = some th → th.holds = 0 ∧ (th.pc = .idle → th.res ≠ .ok)) := by
@@ -246,7 +279,7 @@ theorem no_resurrection {s s' : State} (h : Reachable s) (hd : s.sh.dir = false)
   have I := inv_reachable h'
   have h1 := (lsum_ge holdsI holdsI_nonneg s'.ts t th hg).1
   have hz : th.holds = 0 := by
-    have := S.2.2 hdn; rw [I.rcSum] at this; simp only [holdsI] at h1; omega
+    have := S.2.2 hdn; rw [I.rcSum rfl] at this; simp only [holdsI] at h1; omega
   refine ⟨hz, ?_⟩
   intro hpc hres
   have T := I.tl t th hg
@@ -256,7 +289,7 @@ theorem no_resurrection {s s' : State} (h : Reachable s) (hd : s.sh.dir = false)
 
 /-- `acquire` on a segment whose directory is gone takes the `ErrSegmentClosed` exit: each of the
 three decisive steps is forced. -/
-theorem acquire_after_delete_fails {s : State} (h : Reachable s) (hd : s.sh.dir = false)
+theorem acquire_after_delete_fails {legacy : Bool} {s : State} (h : Reach legacy s) (hd : s.sh.dir = false)
     (hdn : s.sh.down = false) (t : Nat) (th : Th) (ok : Bool) :
     (th.pc = .irLoad → ∃ th', tstep t s.sh th .incRef ok = some (s.sh, th') ∧ th'.pc = .aqLock) ∧
     (th.pc = .aqRc → ∃ th', tstep t s.sh th .incRef ok = some (s.sh, th') ∧ th'.pc = .aqMbd) ∧
@@ -278,7 +311,7 @@ theorem incRef_after_delete (t : Tid) (ok isOpen dir down : Bool) (la : Int) (ho
 /-- **A failed `incRef` (closed error or `initialize` error) leaves the caller with exactly the
 references it had; a successful one adds exactly one.**  Together with `refcount_eq_holders` this
 is "a failed incRef changes no count". -/
-theorem incRef_fail_no_count {s : State} (h : Reachable s) {t : Nat} {th : Th} (hg : s.ts[t]? = some th)
+theorem incRef_fail_no_count {legacy : Bool} {s : State} (h : Reach legacy s) {t : Nat} {th : Th} (hg : s.ts[t]? = some th)
     (hpc : th.pc = .idle) :
     (th.res = .closedErr ∨ th.res = .initErr → th.holds = th.base) ∧ (th.res = .ok → th.holds = th.base + 1) := by
   have T := (inv_reachable h).tl t th hg
@@ -292,17 +325,25 @@ theorem decRef_always_releases {s : State} (h : Reachable s) {t : Nat} {th : Th}
     (∀ cur own, th.pc = .drCas cur own → own = true ∧ s.sh.rc > 0) := by
   have I := inv_reachable h
   have T := I.tl t th hg
+  have N := I.noStray rfl t th hg
   have h1 := (lsum_ge holdsI holdsI_nonneg s.ts t th hg).1
-  have hr := I.rcSum
+  have hr := I.rcSum rfl
   simp only [holdsI] at h1
   constructor
-  · intro own hpc; simp [TL, TLpc, hpc] at T; exact ⟨T.1.1, by omega⟩
-  · intro cur own hpc; simp [TL, TLpc, hpc] at T; exact ⟨T.1.2.1, by omega⟩
+  · intro own hpc
+    cases own with
+    | false => simp [strayPC, hpc] at N
+    | true => simp [TL, TLpc, hpc] at T; exact ⟨rfl, by omega⟩
+  · intro cur own hpc
+    cases own with
+    | false => simp [strayPC, hpc] at N
+    | true => simp [TL, TLpc, hpc] at T; exact ⟨rfl, by omega⟩
 
 /-- **All references released ⇒ `refCount = 0`** – nothing is left behind that could block
 idle-close or retention. -/
-theorem all_released_rc_zero {s : State} (h : Reachable s) (hz : ∀ th ∈ s.ts, th.holds = 0) : s.sh.rc = 0 := by
-  rw [(inv_reachable h).rcSum]
+theorem all_released_rc_zero {legacy : Bool} {s : State} (h : Reach legacy s) (hz : ∀ th ∈ s.ts, th.holds = 0) :
+    s.sh.rc = 0 := by
+  have I := inv_reachable h
   have : ∀ ts : List Th, (∀ th ∈ ts, th.holds = 0) → lsum holdsI ts = 0 := by
     intro ts
     induction ts with
@@ -311,7 +352,9 @@ theorem all_released_rc_zero {s : State} (h : Reachable s) (hz : ∀ th ∈ s.ts
       intro hz
       simp [lsum, holdsI, hz x (by simp)]
       exact ih fun th hm => hz th (by simp [hm])
-  exact this s.ts hz
+  have h1 := I.rcLe; rw [this s.ts hz] at h1
+  have h2 := I.rcNonneg
+  omega
 
 /-- … and then idle-close and retention do succeed (op granularity, no interference). -/
 theorem unreferenced_reclaimable (t : Tid) (ok isOpen mbd dir down : Bool) (la thr : Int) (hla : la < thr)
@@ -423,7 +466,7 @@ inductive MReach : (Nat → State) → Prop
       (m i).step l = some s' → MReach (fun j => if j = i then s' else m j)
 
 /-- the invariant (hence every theorem above) holds for each segment of a multi-segment run -/
-theorem inv_reachable_multi {m : Nat → State} (h : MReach m) : ∀ i, Reachable (m i) ∧ Inv (m i) := by
+theorem inv_reachable_multi {m : Nat → State} (h : MReach m) : ∀ i, Reachable (m i) ∧ Inv false (m i) := by
   have : ∀ i, Reachable (m i) := by
     induction h with
     | init => intro _; exact Reach.init
@@ -458,6 +501,11 @@ theorem legacy_use_after_close :
 theorem legacySteal_reach : Reach true (endOf legacySteal) ∧ (endOf legacySteal).sh.down = false ∧
     (endOf legacySteal).sh.isOpen = false ∧ ((endOf legacySteal).ts[1]?.map (·.holds)) = some 1 :=
   ⟨reach_endOf true legacySteal (fun _ _ => Or.inl rfl) (by decide), by decide, by decide, by decide⟩
+
+/-- the same end state satisfies everything that is proved for the code as written (`Inv true`):
+what F14a breaks is exactly `refCount = holders` (here `0` vs `1`) and with it `no_use_after_close`. -/
+theorem legacySteal_inv : Inv true (endOf legacySteal) ∧ (endOf legacySteal).sh.rc = 0 ∧ holders (endOf legacySteal) = 1 :=
+  ⟨inv_reachable legacySteal_reach.1, by decide, by decide⟩
 
 /-- a two-segment world for the loop counterexample: pins owned per segment; `incRef` fails on
 segment 1 -/
